@@ -2,6 +2,7 @@ package vrun
 
 import (
 	"fmt"
+	"io"
 	"strings"
 	"sync"
 	"sync/atomic"
@@ -132,31 +133,34 @@ func c15Cell(st c15State, op, ev, timing string, seed uint64) string {
 	detail := map[string]interface{}{"state": st.name, "op": op, "event": ev, "timing": timing, "n": n, "avail": avail, "free": free}
 	var bDone int64
 	var blockedID int64
+	var opErr atomic.Pointer[error]
 	// the operation under test
 	spawn(func() {
 		atomic.StoreInt64(&blockedID, int64(goid()))
 		defer atomic.StoreInt64(&bDone, 1)
+		var err error
 		switch op {
 		case "Read":
 			p := make([]byte, n)
-			b.Read(p)
+			_, err = b.Read(p)
 		case "ReadPeek":
-			b.ReadPeek(int(n))
+			_, err = b.ReadPeek(int(n))
 		case "ReadWait":
-			b.ReadWait(int(n))
+			_, err = b.ReadWait(int(n))
 		case "WriteTo":
-			b.WriteTo(&streamWriter{seed: seed, pos: st.offset, badAt: -1})
+			_, err = b.WriteTo(&streamWriter{seed: seed, pos: st.offset, badAt: -1})
 		case "Write":
 			p := make([]byte, n)
 			fillStream(p, seed, st.offset+st.fill)
-			b.Write(p)
+			_, err = b.Write(p)
 		case "WriteWait":
-			b.WriteWait(int(n))
+			_, _, err = b.WriteWait(int(n))
 		case "WriteCommit":
-			b.WriteCommit(int(n))
+			_, err = b.WriteCommit(int(n))
 		case "ReadFrom":
-			b.ReadFrom(&streamReader{seed: seed, pos: st.offset + st.fill, end: st.offset + st.fill + 8192, final: errStop})
+			_, err = b.ReadFrom(&streamReader{seed: seed, pos: st.offset + st.fill, end: st.offset + st.fill + 8192, final: errStop})
 		}
+		opErr.Store(&err)
 		if ev == "close-from-blocked-side" {
 			b.Close()
 		}
@@ -263,6 +267,21 @@ func c15Cell(st c15State, op, ev, timing string, seed uint64) string {
 	if stuck != nil {
 		reportStuck("c15:stuck", stuck, detail)
 		return fmt.Sprintf("cell/%s/%s/%s/%s/stuck", st.name, op, ev, timing)
+	}
+
+	// a call that could only wait and was ended by Close must report end-of-stream
+	if blocks && strings.HasPrefix(ev, "close") {
+		if ep := opErr.Load(); ep != nil {
+			res := "nil"
+			if *ep != nil {
+				res = (*ep).Error()
+			}
+			out.Count("c15.closed_results", 1)
+			if *ep != io.EOF {
+				out.Violation("c15:closed-result:"+op+":"+res, fmt.Sprintf("%s could only wait (%d bytes asked, %d available, %d free) and the buffer was closed meanwhile: it returned %s instead of end-of-stream", op, n, avail, free, res), detail)
+				return fmt.Sprintf("cell/%s/%s/%s/%s/result", st.name, op, ev, timing)
+			}
+		}
 	}
 
 	// phase 2: Close (again) and the later-calls probe
